@@ -419,6 +419,8 @@ def cases(tier):
         case = {"env": name, "cfg": cfg, "B": 1, "src": src, "seed": draw(st.integers(0, 2 ** 31 - 1))}
         if src == "lat":
             case["lat"] = draw(spec.lattice(cfg, 1, exact=True))
+        elif src == "tgt":
+            case["lat"] = draw(spec.tight(cfg, 1))
         return case
     return c()
 
